@@ -107,4 +107,46 @@ theorem skel_redirectToHTTPS_ok : skel_redirectToHTTPS = ([
   "net.SplitHostPort",
   "http.Redirect"] : List String) := rfl
 
+theorem skel_NewOAuthProxy_ok : skel_NewOAuthProxy = ([
+  "if err != nil",
+  "return nil, fmt.Errorf(\"error initialising session store: %v\", err)",
+  "fmt.Errorf",
+  "if opts.HtpasswdFile != \"\"",
+  "if err != nil",
+  "return nil, fmt.Errorf(\"could not validate htpasswd: %v\", err)",
+  "fmt.Errorf",
+  "if err != nil",
+  "return nil, fmt.Errorf(\"error initialising provider: %v\", err)",
+  "fmt.Errorf",
+  "if err != nil",
+  "return nil, fmt.Errorf(\"error initialising page writer: %v\", err)",
+  "fmt.Errorf",
+  "if err != nil",
+  "return nil, fmt.Errorf(\"error initialising upstream proxy: %v\", err)",
+  "fmt.Errorf",
+  "if opts.SkipJwtBearerTokens",
+  "if redirectURL.Path == \"\"",
+  "fmt.Sprintf",
+  "if opts.Cookie.Refresh != time.Duration(0)",
+  "fmt.Sprintf",
+  "strings.Join",
+  "if ipNet != nil",
+  "return nil, fmt.Errorf(\"could not parse IP network (%s)\", ipStr)",
+  "fmt.Errorf",
+  "if err != nil",
+  "return nil, err",
+  "if err != nil",
+  "return nil, err",
+  "if err != nil",
+  "return nil, fmt.Errorf(\"could not build pre-auth chain: %v\", err)",
+  "fmt.Errorf",
+  "if err != nil",
+  "return nil, fmt.Errorf(\"could not build headers chain: %v\", err)",
+  "fmt.Errorf",
+  "fmt.Sprintf",
+  "if err != nil",
+  "return nil, fmt.Errorf(\"error setting up server: %v\", err)",
+  "fmt.Errorf",
+  "return p, nil"] : List String) := rfl
+
 end O2P.Expect.C19
